@@ -75,6 +75,12 @@ type run struct {
 	names map[string]*pppoe.Session // harness name -> session object (kept after removal: "ending twice")
 	ebpf  map[string]int            // RADIUS session id -> eBPF removals
 	padt  map[string]int
+	cbMu  sync.Mutex // the callbacks run in the goroutines of parked terminations too
+	// a TerminateSession call can be parked inside its PADT callback (after the tornDown check, before cleanup)
+	parkTag string
+	entered chan struct{}
+	resume  map[string]chan struct{}
+	done    map[string]chan struct{}
 }
 
 func (comp) NewRun() hx.Run { return &run{} }
@@ -158,10 +164,30 @@ func (r *run) Do(op string) string {
 		r.padt = map[string]int{}
 		r.td.SetSessionManager(r.sm)
 		r.td.SetIPPool(p)
-		r.td.SetSendPADT(func(s *pppoe.Session, _ []pppoe.Tag) { r.padt[s.SessionID]++ })
+		r.entered = make(chan struct{}, 4)
+		r.resume = map[string]chan struct{}{}
+		r.done = map[string]chan struct{}{}
+		r.td.SetSendPADT(func(s *pppoe.Session, _ []pppoe.Tag) {
+			r.cbMu.Lock()
+			r.padt[s.SessionID]++
+			tag := r.parkTag
+			r.parkTag = ""
+			var ch chan struct{}
+			if tag != "" {
+				ch = make(chan struct{})
+				r.resume[tag] = ch
+			}
+			r.cbMu.Unlock()
+			if ch != nil {
+				r.entered <- struct{}{}
+				<-ch
+			}
+		})
 		r.td.SetUpdateEBPFMaps(func(s *pppoe.Session, remove bool) error {
 			if remove {
+				r.cbMu.Lock()
 				r.ebpf[s.SessionID]++
+				r.cbMu.Unlock()
 			}
 			return nil
 		})
@@ -213,6 +239,46 @@ func (r *run) Do(op string) string {
 			return "nosuch"
 		}
 		r.td.TerminateSession(s, pppoe.TerminateCauseAdminReset, "")
+	case "tpark": // tpark A s1 : a TerminateSession call run up to its PADT (tornDown already checked), then held
+		s := r.names[f[2]]
+		if s == nil || r.done[f[1]] != nil {
+			return "badop"
+		}
+		r.cbMu.Lock()
+		r.parkTag = f[1]
+		r.cbMu.Unlock()
+		d := make(chan struct{})
+		r.done[f[1]] = d
+		go func() { r.td.TerminateSession(s, pppoe.TerminateCauseAdminReset, ""); close(d) }()
+		select {
+		case <-r.entered:
+			return "parked " + r.snapshot()
+		case <-d:
+			r.cbMu.Lock()
+			r.parkTag = ""
+			r.cbMu.Unlock()
+			delete(r.done, f[1])
+			return "done " + r.snapshot()
+		case <-time.After(20 * time.Second):
+			return "hang"
+		}
+	case "tresume": // tresume A : the held call goes on (cleanup)
+		d := r.done[f[1]]
+		r.cbMu.Lock()
+		ch := r.resume[f[1]]
+		delete(r.resume, f[1])
+		r.cbMu.Unlock()
+		if d == nil || ch == nil {
+			return "badop"
+		}
+		close(ch)
+		select {
+		case <-d:
+		case <-time.After(20 * time.Second):
+			return "hang"
+		}
+		delete(r.done, f[1])
+		return "done " + r.snapshot()
 	case "termid":
 		id, _ := strconv.Atoi(f[1])
 		r.td.TerminateByID(uint16(id), "")
@@ -245,9 +311,27 @@ func (comp) Gen(rg *rand.Rand, tier string, emit func([]string)) {
 		rad := hx.Pick(rg, []string{"radius", "radius", "noradius"})
 		seq := []string{"new " + rad}
 		made := 0
+		var parked []string
 		ln := 3 + rg.Intn(12)
 		for j := 0; j < ln; j++ {
 			x := rg.Intn(100)
+			// two terminations at once: a TerminateSession call held inside its PADT while others run
+			if made > 0 && rg.Intn(6) == 0 {
+				if len(parked) < 2 && rg.Intn(2) == 0 {
+					tag := []string{"A", "B"}[len(parked)]
+					if len(parked) == 1 && parked[0] == "B" {
+						tag = "A"
+					}
+					parked = append(parked, tag)
+					seq = append(seq, fmt.Sprintf("tpark %s s%d", tag, 1+rg.Intn(made)))
+					continue
+				} else if len(parked) > 0 {
+					k := rg.Intn(len(parked))
+					seq = append(seq, "tresume "+parked[k])
+					parked = append(parked[:k], parked[k+1:]...)
+					continue
+				}
+			}
 			switch {
 			case x < 30 && made < 5:
 				made++
@@ -269,6 +353,9 @@ func (comp) Gen(rg *rand.Rand, tier string, emit func([]string)) {
 			default:
 				seq = append(seq, "termall")
 			}
+		}
+		for _, t := range parked {
+			seq = append(seq, "tresume "+t)
 		}
 		emit(seq)
 	}
